@@ -2,6 +2,7 @@
 from engine import guards as G
 from engine import mir
 from . import common as K
+from . import detectors as D
 from .common import POOL, fshort
 
 EXPLANATION = (
@@ -20,6 +21,7 @@ FT = POOL + "finality_tracker::FinalityTracker"
 
 
 def check(run, prefix="O7"):
+    D.ob_state_mutations(run, "O7.8", ['consensus::pool::parent_ready_tracker::ParentReadyTracker', 'consensus::pool::parent_ready_tracker::parent_ready_state::ParentReadyState'], 'ready/skip/notar-fallback marks are monotone: removing or overwriting them loses or repeats ParentReady announcements')
     prog = run.program("lib")
     P = prefix
 
